@@ -362,7 +362,7 @@ func c09R2(c *Ctx, rule string) {
 	// data := buf[:i], i = readFirstPacket#0
 	var data *ssa.Slice
 	allInstrs(dc, func(i ssa.Instruction) {
-		if sl, ok := i.(*ssa.Slice); ok && sl.Low == nil && sl.High != nil {
+		if sl, ok := i.(*ssa.Slice); ok && (sl.Low == nil || isK(sl.Low, 0)) && sl.High != nil {
 			if ex, isEx := sl.High.(*ssa.Extract); isEx && ex.Index == 0 {
 				if call, isC := ex.Tuple.(*ssa.Call); isC && strings.HasSuffix(calleeName(&call.Call), "readFirstPacket") {
 					if call.Call.Args[1] == sl.X {
@@ -434,6 +434,26 @@ func c09R2(c *Ctx, rule string) {
 	_ = p
 }
 
+// mustReach: every path through in-repo function g executes a call that is, or must reach, target (helper wrappers).
+func mustReach(p *Prog, g, target *ssa.Function, depth int) bool {
+	if g == nil || !p.InRepo(g) || len(g.Blocks) == 0 || depth > 2 {
+		return false
+	}
+	miss := entrySearch(g, func(i ssa.Instruction) bool {
+		call, ok := i.(*ssa.Call)
+		if !ok {
+			return false
+		}
+		for _, h := range p.Callees(call) {
+			if h == target || (h != g && mustReach(p, h, target, depth+1)) {
+				return true
+			}
+		}
+		return false
+	}, func(i ssa.Instruction) bool { _, isRet := i.(*ssa.Return); return isRet })
+	return miss == nil
+}
+
 // isResponderCall: dynamic call of a value with the Responder signature.
 func isResponderCall(i ssa.Instruction) bool {
 	call, ok := i.(*ssa.Call)
@@ -466,7 +486,7 @@ func c09R3(c *Ctx, rule string) {
 		if call, ok := i.(*ssa.Call); ok {
 			if goWeb != nil {
 				for _, g := range p.Callees(call) {
-					if g == goWeb {
+					if g == goWeb || mustReach(p, g, goWeb, 0) {
 						webCalls = append(webCalls, i)
 					}
 				}
@@ -567,8 +587,11 @@ func c09R3(c *Ctx, rule string) {
 			if len(f.Params) > 0 && recv == ssa.Value(f.Params[0]) {
 				isPeer = true
 			}
-			if fv, isFV := recv.(*ssa.FreeVar); isFV && fv.Name() == "conn" {
+			if fv, isFV := recv.(*ssa.FreeVar); isFV && fv.Name() == dc.Params[0].Name() {
 				isPeer = true
+			}
+			if al, isAl := recv.(*ssa.Alloc); isAl && f == dc && al.Comment == dc.Params[0].Name() {
+				isPeer = true // the parameter is captured by the redirect closure, so it lives in a cell
 			}
 			if isPeer {
 				wrote = c.at(i)
